@@ -1,7 +1,7 @@
 (* C14 -- the fast Verilog reader agrees with the full reader on its documented subset.  Statements only; proofs in
    Proofs/FastVerilogProofs.v.  Models: Model/FastVerilog.v (fast_sem, full_sem, untie, in_subset). *)
 From stdpp Require Import strings gmap sets.
-From CG Require Import Model.FastVerilog Proofs.FastVerilogProofs Base.Sem Gen.Gen_fastv.
+From CG Require Import Model.FastVerilog Proofs.FastVerilogProofs Proofs.FvA6 Proofs.FvA10 Base.Sem Gen.Gen_fastv.
 Open Scope string_scope.
 
 (* obligation on the regenerated tables: patterns of the fast reader as captured from a live call (keywords anchored with \b,
@@ -32,6 +32,13 @@ Print Assumptions C14_untie_eq_registry.
 Theorem C14_fast_sem_succeeds_partial : ∀ a bbs, in_subset a bbs = true → ∃ C, fast_sem a bbs = Ok C.
 Proof. exact fast_sem_succeeds. Qed.
 Print Assumptions C14_fast_sem_succeeds_partial.
+
+(* second half of "both succeed" for every AST of the subset WITHOUT blackbox instances (primitive instances and assigns, any
+   statement order, use before definition): the full reader raises nothing.  Proof: invariant of its fold over add_g
+   (Proofs/FvA2..FvA10: add_node_spec, full_item_step, full_fold, full_sem_char). *)
+Theorem C14_full_sem_succeeds_prims_assigns_partial : ∀ a bbs, in_subset a bbs = true → no_inst a = true → ∃ C, full_sem a bbs = Ok C.
+Proof. intros a bbs H1 H2. destruct (full_sem_char a bbs H1 H2) as (C1 & g1 & _ & _ & _ & H). eauto. Qed.
+Print Assumptions C14_full_sem_succeeds_prims_assigns_partial.
 
 (* one clause of the full statement, proved for ALL ASTs (inside or outside the subset): whenever both readers succeed they
    return the same module name and the same blackbox instances (definitions unambiguous) *)
